@@ -281,8 +281,8 @@ func (c *Ctx) ruleM5(rule string) {
 				return
 			}
 			held := x.heldAt(in)
-			_, ok = held["Gengine.lock"]
-			c.Check(rule, key, ok, in.Pos(), "result map write with locks held: %v (need Gengine.lock)", heldNames(held))
+			kind, ok := held["Gengine.lock"]
+			c.Check(rule, key, ok && kind == "Lock", in.Pos(), "result map write with locks held: %v (need Gengine.lock held exclusively; a read lock does not exclude other writers)", heldKinds(held))
 			for _, op := range x.lockOps(f) {
 				if op.mutex == "Gengine.lock" && op.kind == "Lock" {
 					c.Check(rule, fnName(f)+"#unlock-on-all-exits", x.releasedOnAllExits(op), op.in.Pos(), "g.lock taken in addResult must be released on every exit")
@@ -1394,6 +1394,18 @@ func (c *Ctx) ruleSelection(rule string, fn *ssa.Function, missPolicy string) *s
 			allOK = false
 			continue
 		}
+		// ... and under nothing else: every hit is selected, once per occurrence of its name
+		extra := ""
+		for _, g := range x.GuardsOfInLoop(st.Block()) {
+			if g.If != okIf {
+				d := x.Describe(g.Cond)
+				if !g.Pol {
+					d = "!" + d
+				}
+				extra = d
+			}
+		}
+		c.Check(rule, skey+"/every-hit-selected", extra == "", st.Pos(), "a found rule is selected only under the additional condition %s: each named existing rule must be selected once per occurrence of its name", extra)
 		// key source: element of a ranged []string or dag[i][j] in a forward counted loop
 		ksrc := x.Describe(lk.Index)
 		L := x.InnermostLoop(lk.Block())
